@@ -230,6 +230,8 @@ class Universe:
             self._ret(self.N(c["n"]).append(ns[0] if len(ns) == 1 and self.via_function else ns))
         elif op == "InitSetdefault":
             self._ret(self.G(c["g"]).initializers.setdefault(_pyname(c["name"]), self.V(c["v"])))
+        elif op == "InitUpdateKeys":
+            self._ret(self.G(c["g"]).initializers.update([(_pyname(c["name"]), self.V(c["v"])), (_pyname(c["k"]), self.V(c["w"]))]))
         elif op == "InitUpdate2":
             v, w = self.V(c["v"]), self.V(c["w"])
             self._ret(self.G(c["g"]).initializers.update([(v.name, v), (w.name, w)]))
